@@ -8,6 +8,9 @@
 //! Oracle: C05 outcome / payload / waker accounting, exactly one storage release (hook H4), no
 //! write to embedded storage after the release, no panic inside the library.
 
+#[global_allocator]
+static ALLOC: p_events_once::PoisonOnFree = p_events_once::PoisonOnFree;
+
 use std::cell::{Cell, RefCell};
 use std::future::Future;
 use std::pin::Pin;
